@@ -43,8 +43,8 @@ def sur_fn(ranks):
     return f
 
 
-def build(scn: dict):
-    """Build the real model for a scenario: comps declared in scn['ord'] order.
+def build(scn: dict, pre=None):
+    """Build the real model for a scenario: comps declared in scn['ord'] order (pre: declared before them).
 
     scn: {req: {k: [names]}, ord: [k...], prov: {k: [names]}, kinds: {k: kind}, rank: {n: int}, benv: {n: value}}
     """
@@ -58,6 +58,8 @@ def build(scn: dict):
 
     from ..modelkit import typed
 
+    if pre is not None:
+        pre(m)
     trnd = _random.Random(f"types/{scn.get('idx', 0)}/{sorted(scn['benv'])}")
     for n, v in scn["benv"].items():
         m.add_parameter(n, typed(v, trnd))     # the same number as a Python float / int or a numpy scalar
@@ -186,9 +188,65 @@ def classify(scn: dict, detail: dict) -> str | None:
     return None
 
 
+def judge_coef(scn: dict) -> dict | None:
+    """DepGraph.tla GCoefMissing: the names a reaction's COMPUTED stoichiometric coefficient takes count as names the
+    reaction requires for the completeness clause (not for the order: coefficients are evaluated after everything).
+    A complete acyclic graph gets one more reaction `zc` (declared first or last) whose coefficient names either a
+    name of the graph -- everything stays as it was -- or a name nothing provides: every entry point must then
+    answer with the missing-dependency error listing exactly {zc: [that name]}, never with numbers."""
+    import zlib
+
+    from mxlpy.model import MissingDependenciesError
+    from mxlpy.types import Derived
+
+    if scn["kinds"] != ["ok"]:
+        return None
+    h = zlib.crc32(json.dumps([scn["req"], scn["ord"], scn["kind"]], sort_keys=True).encode())
+    if h % 4:
+        return None
+    names = sorted(set(scn["benv"]) | {n for k in scn["ord"] for n in scn["prov"][k]} | {"time", "x0"})
+    ghost = (h >> 2) % 2 == 0
+    name = "nx" if ghost else names[(h >> 4) % len(names)]
+    first = (h >> 3) % 2 == 0
+
+    def zc(m):
+        m.add_reaction("zc", PLUS1, args=[], stoichiometry={"x0": Derived(fn=PLUS1, args=[name])})
+
+    for ep in ("get_args", "get_initial_conditions", "get_right_hand_side", "get_fluxes", "get_stoichiometries"):
+        try:
+            with alarm(30):
+                m = build(scn, pre=zc if first else None)
+                if not first:
+                    zc(m)
+                r = getattr(m, ep)()
+            if ghost:
+                return {"entry_point": ep, "coefficient_names": name, "declared": "first" if first else "last",
+                        "expected": "missing-dependency error {zc: [nx]}", "observed": "numbers returned"}
+            if ep == "get_args":
+                got = {k: float(v) for k, v in r.to_dict().items()}
+                for n, v in scn["values"].items():
+                    if n not in got or abs(got[n] - v) > 1e-9:
+                        return {"entry_point": ep, "coefficient_names": name, "name": n, "expected": v,
+                                "observed": got.get(n, "absent")}
+        except MissingDependenciesError as e:
+            per = {}
+            for line in str(e).splitlines():
+                mm = re.match(r"\s*(\w+): \[(.*)\]\s*$", line)
+                if mm:
+                    per[mm.group(1)] = sorted(_QUOTED.findall(mm.group(2)))
+            if not ghost or per != {"zc": ["nx"]}:
+                return {"entry_point": ep, "coefficient_names": name, "declared": "first" if first else "last",
+                        "expected": "{zc: [nx]}" if ghost else "numbers", "observed_missing": per}
+        except Exception as e:  # noqa: BLE001
+            return {"entry_point": ep, "coefficient_names": name, "declared": "first" if first else "last",
+                    "expected": "missing-dependency error {zc: [nx]}" if ghost else "numbers",
+                    "observed": f"{type(e).__name__}: {str(e)[:100]}"}
+    return None
+
+
 def _work(scn: dict):
     obs = observe(scn)
-    bad = judge(scn, obs) or judge_given(scn)
+    bad = judge(scn, obs) or judge_given(scn) or judge_coef(scn)
     return bad
 
 
